@@ -346,7 +346,11 @@ class _RawConfigParser(configparser.RawConfigParser):
       if 'fallback' in kwargs and not kwargs['fallback'] is configparser._UNSET:
         return kwargs['fallback']
       raise configparser.NoOptionError(option, section)
-    return super(_RawConfigParser, self).get(section, option, **kwargs)
+    try:
+      return super(_RawConfigParser, self).get(section, option, **kwargs)
+    except configparser.InterpolationError as e:
+      # Unresolvable or malformed ${...} placeholder
+      raise ConfigParserException("Could not resolve placeholder in [{}] '{}': {}".format(section, option, e.message))
 
   def optionxform(self, option):
     # Normalise keys in the same way as _ConfigParserDict (which stores them). This makes the parser's
@@ -395,6 +399,9 @@ class ConfigParser(object):
       cp.read_file(fp)
     except (configparser.DuplicateOptionError, configparser.DuplicateSectionError) as e:
       raise ConfigParserDuplicateEntryException(e.message)
+    except configparser.Error as e:
+      # e.g. text before the first section header, unclosed section header or lines that are not 'key : value' pairs
+      raise ConfigParserException("Could not parse configuration file: {}".format(e.message))
 
     # Process overrides
     for override in overrides:
@@ -538,7 +545,10 @@ class ConfigParser(object):
     return self._parse_multi_range(species_tuple, value, tuple_type)
 
   def _pair_species_func(self, k):
-    species_a, species_b = k.split("-")
+    tokens = k.split("-")
+    if len(tokens) != 2 or not tokens[0].strip() or not tokens[1].strip():
+      raise ConfigParserException("Pair of species should be of the form 'SPECIES_A-SPECIES_B'. Invalid key found: '{}'".format(k))
+    species_a, species_b = tokens
     species_a = species_a.strip()
     species_b = species_b.strip()
     return  SpeciesTuple(species_a, species_b)
@@ -564,7 +574,10 @@ class ConfigParser(object):
 
   def _parse_eam_fs_density_line(self, k, value):
     def species_func(k):
-      from_species, to_species = k.split("->")
+      tokens = k.split("->")
+      if len(tokens) != 2 or not tokens[0].strip() or not tokens[1].strip():
+        raise ConfigParserException("invalid key '{}'".format(k))
+      from_species, to_species = tokens
       from_species = from_species.strip()
       to_species = to_species.strip()
       return  EAMFSDensitySpeciesTuple(from_species, to_species)
@@ -737,7 +750,11 @@ class ConfigParser(object):
       'charge' : float,
       'lattice_type' : default}
 
-    converted = known_properties.get(property_name, default)(v)
+    try:
+      converted = known_properties.get(property_name, default)(v)
+    except ValueError:
+      raise ConfigParserException("Error when parsing [Species] section. Could not convert value of '{}' into '{}'. Value is = {}".format(
+        property_name, known_properties[property_name].__name__, v))
     return converted
 
   @property
